@@ -650,3 +650,82 @@ def src_bind(run):
             run.check(ok, R, key, f.loc(t["span"]), "%s counts lines/columns in the text of the span's own file" % f.id,
                       "%s builds its CharCounter from a text that is not provably the span's own file (%s): a message located in another file would be printed with that file's name but another file's line, column and excerpt" % (f.id, why))
     run.floor(R, "CharCounter constructions in the report printer", n, 2)
+
+
+def addrspan_positions(run, R="SRC"):
+    """the address-span listing: the line/column printed in a row is a function of that row's span alone --
+    get_line_column_at_index(<counter over the text of the span's file>, <the span's own start / end>) -- and of nothing
+    carried over from the previous row"""
+    from rules_sym import deep
+    fs = [f for f in run.prog.real_fns() if f.kind == "AssocFn" and f.id.endswith("::format_addrspan")]
+    if len(fs) != 1:
+        run.violation(R, R + "|addrspan|anchor", "-", "mechanism not found: format_addrspan")
+        return
+    f = fs[0]
+    bad = []
+    n = 0
+    names = []
+    for bi, t in f.calls():
+        c = t.get("resolved") or t.get("callee") or ""
+        if "CharCounter" not in c or c.endswith("::new"):
+            if c.endswith("FileServer::get_filename"):
+                names.append(deep(f, t["args"][1], 6))
+            continue
+        n += 1
+        if not c.endswith("::get_line_column_at_index"):
+            bad.append("positions computed with `%s`" % c.rsplit("::", 1)[-1])
+            continue
+        cnt, idx = deep(f, t["args"][0], 8), deep(f, t["args"][1], 6)
+        m = re.fullmatch(r"Span::location\((.*)\.span\)@Some\.0\.([01])", idx)
+        if not m or "var:" in idx:
+            bad.append("the index `%s` is not the row's own span start/end" % idx[:80])
+            continue
+        X = m.group(1)
+        direct = re.search(r"FileServer::get_str(_unwrap)?\(.*" + re.escape(X) + r"\.span\.file_handle\)", cnt)
+        cached = "var:" in cnt and any(st["k"] == "assign" and st["rv"]["k"] == "binop" and st["rv"]["op"] in ("Eq", "Ne") and
+                                       any(deep(f, o, 6) == X + ".span.file_handle" for o in (st["rv"]["l"], st["rv"]["r"])) for _, _, st in f.stmts())
+        if not (direct or cached):
+            bad.append("the text counted in is not the text of the row's own file")
+        if names and not all(nm == X + ".span.file_handle" for nm in names):
+            bad.append("the file name printed (%s) is not that of the row's span" % names)
+    run.check(n >= 2 and not bad, R, R + "|addrspan|position-of-span", f.loc(),
+              "format_addrspan: line/column of both ends come from get_line_column_at_index over the span's own file and location (%d call(s))" % n,
+              "format_addrspan: %s: a row could name a source position that is not where its bits come from" % ("; ".join(sorted(set(bad))) or "no line/column computation found"))
+
+
+def line_column_counts(run, R="UNIT"):
+    """CharCounter::get_line_column_at_index counts characters: it walks the text character by character (char_indices), stops
+    at the byte index, and the only arithmetic on the two counters it returns is `+ 1` (one per character / per line) and the
+    column's reset on '\\n' -- never an encoded length of the character"""
+    from rules_sym import deep
+    fs = [f for f in run.prog.real_fns() if re.search(r"CharCounter(::<.*>)?::get_line_column_at_index$", f.id)]
+    if len(fs) != 1:
+        run.violation(R, R + "|line-column|anchor", "-", "mechanism not found: CharCounter::get_line_column_at_index")
+        return
+    f = fs[0]
+    adds = [(deep(f, st["rv"]["l"], 4), deep(f, st["rv"]["r"], 4)) for bi, si, st in f.stmts()
+            if st["k"] == "assign" and st["rv"]["k"] == "binop" and st["rv"]["op"] in ("Add", "AddWithOverflow", "Sub", "SubWithOverflow", "Mul", "MulWithOverflow")]
+    walks = any((t.get("callee") or "").endswith("<impl str>::char_indices") or (t.get("callee") or "").endswith("<impl str>::chars") for _, t in f.calls())
+    other_calls = sorted(set((t.get("callee") or "?").rsplit("::", 1)[-1] for _, t in f.calls() if re.search(r"len_utf(8|16)|encode_utf|width", t.get("callee") or "")))
+    ok = walks and len(adds) == 2 and all(r == "1_usize" and l.startswith("var") for l, r in adds) and not other_calls
+    run.check(ok, R, R + "|line-column|counts-characters", f.loc(), "line and column are counted one per line / one per character over char_indices",
+              "get_line_column_at_index does not count one per character (arithmetic: %s; encoded-length calls: %s): the column printed after a multi-byte character would not be the 1-based character column" % (adds, other_calls))
+
+
+def walker_text(run, R="SRC"):
+    """the parser walks the very text the diagnostics are later located in: the walker of a source file is built over
+    FileServer::get_str(<handle>) unchanged, with that same handle (spans are byte offsets into the stored file)"""
+    from rules_sym import deep
+    f = run.anchor(R, "asm::parser::parse_and_resolve_includes")
+    if f is None:
+        return
+    ws = [(bi, t) for bi, t in f.calls() if re.search(r"syntax::walker::Walker(::<.*>)?::new$", t.get("resolved") or t.get("callee") or "")]
+    ok = len(ws) == 1
+    why = "%d walker construction(s)" % len(ws)
+    if ok:
+        text, handle, off = [deep(f, a, 8) for a in ws[0][1]["args"][:3]]
+        m = re.fullmatch(r"FileServer::get_str(?:_unwrap)?\((?:.*, )?(FileServer::get_handle\(.*\)(?:@\w+\.0)?|P\d+)\)(?:@\w+\.0)?", text)
+        ok = bool(m) and m.group(1) == handle and off == "0_usize"
+        why = "the walker reads `%s` for file `%s` from offset `%s`" % (text[:120], handle[:60], off)
+    run.check(ok, R, R + "|walker-text", f.loc(), "the source walker reads the stored text of its own file handle, unchanged, from offset 0",
+              "parse_and_resolve_includes: %s: spans would be byte offsets into a text that is not the stored file, so every line/column and excerpt after the first difference is off" % why)
